@@ -25,6 +25,9 @@ def small_cases(ctx):
     pl = [("oo" + "u" * (k - 2), [0]), ("ow" + "o" * (k - 2), [0, 2]), ("wo" + "u" * (k - 2), None)] + pl
     # an entry that cannot be read (I/O error: no result, never a trigger) in every position of every order,
     # next to unrecorded, grandfathered and passing files
+    # byte-identical files in two languages (comment lines decide the verdict) in every order; both orders of the
+    # twin pair matter: whichever is counted first must not lend its counts to the other
+    pl = [("yr" + "u" * (k - 2), None), ("ryo" + "u" * (k - 3), [0]), ("yrw" + "y" * (k - 3), None)] + pl
     pl = [("eo" + "u" * (k - 2), None), ("eoo" + "u" * (k - 3), [1]), ("ewo" + "e" * (k - 3), None), ("eo" + "w" * (k - 2), [1])] + pl
     out = []
     for i, (sizes, bl) in enumerate(pl):
@@ -48,8 +51,8 @@ def run(ctx):
     reps = 2 if ctx.tier == "quick" else 3
     for i in range(nbig):
         n = rng.choice([8, 12, 20, 40]) if ctx.tier == "quick" else rng.choice([8, 20, 40, 60])
-        sizes = "".join(rng.choice("uuuwwoe" if i % 3 else "uwooe") for _ in range(n))
-        fails = [j for j, c in enumerate(sizes) if c == "o"]
+        sizes = "".join(rng.choice("uuuwwoeyr" if i % 3 else "uwooeyr") for _ in range(n))
+        fails = [j for j, c in enumerate(sizes) if c in "or"]
         bl = None if i % 4 == 3 else [j for j in fails if rng.random() < 0.5]
         orders = []
         for _ in range(2 if ctx.tier == "quick" else 3):
@@ -57,7 +60,12 @@ def run(ctx):
             rng.shuffle(o)
             orders.append(o[:rng.randint(max(2, n // 2), n)])
         jobs.append(("rand", sizes, bl, orders, threads_all, reps, i % 2 == 0, i % 5 == 1, False, False))
-        jobs.append(("scan", sizes.replace("e", "u"), bl, [None], threads_all[:4] if ctx.tier == "quick" else threads_all, reps, i % 2 == 1, False, False, True))
+        # directory scans: some over-long files also break the naming rule of src; the content entry of the
+        # baseline grandfathers both of their violations (the scan-time violation must not stop a fail-fast run)
+        ssizes = sizes.replace("e", "u")
+        if i % 2 == 0:
+            ssizes = "".join(("N" if (c == "o" and (bl is None or j in bl or rng.random() < 0.3)) else c) for j, c in enumerate(ssizes))
+        jobs.append(("scan", ssizes, bl, [None], threads_all[:4] if ctx.tier == "quick" else threads_all, reps, i % 2 == 1, False, False, True))
     traces, spawns = [], 0
 
     def do(j):
@@ -99,10 +107,15 @@ def run(ctx):
         slimt["observed"] = [r["path"] + ":" + r["status"] for r in t["obs"]]
         if not t["ffsub"]:
             tie_bad.append({"what": "observed result list is not ff_sub of the full run", "trace": slimt})
-        if t["threads"] == 1 and (len(t["Rp"]) != t["seq_len"] or [rkey(r) for r in t["Rp"]] != [rkey(r) for r in t["R"][:t["seq_len"]]]):
+        rfiles = [r for r in t["R"] if r["kind"] in ("n", "c")]
+        rstruct = [r for r in t["R"] if r["kind"] not in ("n", "c")]
+        if t["threads"] == 1 and [rkey(r) for r in t["Rp"]] != [rkey(r) for r in rfiles[:t["seq_len"]] + rstruct]:
             tie_bad.append({"what": "one worker: result list is not the sequential prefix ff_seq", "trace": slimt})
         if t["exit"] != t["model_exit"]:
             tie_bad.append({"what": "exit %d, model exit for the observed R' is %d" % (t["exit"], t["model_exit"]), "trace": slimt})
+        if not t["eval_ok"]:
+            findings.append({"prop": "C11", "class": None, "trace": slimt,
+                             "what": "results of the run without fail-fast differ from the independent evaluation of the listed files (order %s): %s" % (t["order"], t["eval_diff"])})
         if t["exit"] != t["exit_noff"]:
             klass = None
             bl = t["disk"] or {}
@@ -117,13 +130,15 @@ def run(ctx):
     ctx.cov["evaluations"] = lib["cases"] + len(traces) + ident_runs
     ctx.cov["distinct_nontrivial"] = len(nontrivial)
     ctx.cov["traces_validated_against_impl"] = len(traces) - len({json.dumps(b["trace"], sort_keys=True) for b in tie_bad})
-    ctx.cov["rule"] = ("RAYON_NUM_THREADS=1 x every permutation of --files over %d files x placements of passing / warned / failing / grandfathered files and unreadable entries (I/O error: no result) (fail-fast by flag and by "
+    ctx.cov["rule"] = ("RAYON_NUM_THREADS=1 x every permutation of --files over %d files x placements of passing / warned / failing / grandfathered files, unreadable entries (I/O error: no result) and byte-identical Python/Rust twins (old mtimes) (fail-fast by flag and by "
                        "[check] fail_fast); 1..16 threads x random --files orders and directory scans x repetitions for 8..60 files; every observed R' checked with ff_subb against the "
                        "run without fail-fast, sequential runs against ff_seq, exit against determine_exit_code(apply_baseline_comparison R'); without fail-fast stdout compared bytewise "
                        "across 1,2,4,8,16 threads. non-trivial = distinct (placement, baseline, order, fail-fast source) with at least one failing file" % k)
     ctx.cov["input_distribution"] = {"traces": dist, "library": lib["dist"], "cli_spawns": spawns, "identical_output_runs": ident_runs,
                                      "threads": sorted({t["threads"] for t in traces}), "dropped_some_result": sum(1 for t in traces if len(t["Rp"]) < len(t["R"])),
                                      "with_grandfathered": sum(1 for t in traces if any(r["status"] == "G" for r in t["obs"])),
+                                     "with_byte_identical_twins": sum(1 for t in traces if "y" in t["sizes"] and "r" in t["sizes"]),
+                                     "scans_with_grandfathered_naming_violation": sum(1 for t in traces if "N" in t["sizes"]),
                                      "with_unreadable_entry": sum(1 for t in traces if "e" in t["sizes"] and not t["full_scan"])}
     ctx.cov["model_vs_impl_mismatches"] = len(lib["mismatches"]) + len(tie_bad)
     for t in traces[:3]:
